@@ -96,6 +96,29 @@ SEPS = [" ", "", "_", ", ", "<->"]
 DTYPES = ["u8", "int:4", "float16", "hex4", "bytes2", "bool", ">H", "<i", "foo", "ue", "u1", "i65", "e4m3mxfp", "bfloat", "bin3", "oct2", "uintle:24", "float:17", "bits3", "pad8", "u0", ""]
 
 
+def _mangle(r, t):
+    """a token / format string with one or two characters inserted, deleted or replaced (malformed-token stream); other
+    values are returned unchanged"""
+    if not isinstance(t, str) or r.random() > 0.3:
+        return t
+    alphabet = "*(),:=0123456789 abxun-+<>@"
+    t = list(t)
+    for _ in range(r.choice([1, 1, 2])):
+        k = r.random()
+        i = r.randint(0, len(t))
+        if k < 0.4 or not t:
+            t.insert(i, r.choice(alphabet))
+        elif k < 0.7:
+            del t[min(i, len(t) - 1)]
+        else:
+            t[min(i, len(t) - 1)] = r.choice(alphabet)
+    return "".join(t)
+
+
+BRACKETS = ["n*(uint:8)", "*(0b1)", "a*(0b1)", "2*(", "*(", ")(", "3*()", "(0b1)*2", "2 * (0b1)", "2*(3*(0b1), 0x2)", "2*(0b1", "0b1)", "-1*(0b1)",
+            "2*(u8, n*(u4))", "(0b1)", "()", "2*(*(0b1))"]
+
+
 def _ints(r, n):
     return r.choice([-n - 1, -n, -1, 0, 1, 2, 7, 8, 9, n - 1, n, n + 1, 2 * n, 10 ** 6, -10 ** 6, r.randint(-n - 2, n + 2), None])
 
@@ -108,7 +131,7 @@ def _bitsy(r, obj):
     if k < 0.32 and isinstance(obj, Bits):
         return obj
     if k < 0.7:
-        return r.choice(BITSY_STR)
+        return _mangle(r, r.choice(BITSY_STR + BRACKETS))
     if k < 0.78:
         return bytes(r.getrandbits(8) for _ in range(r.choice([0, 1, 2, 3])))
     if k < 0.84:
@@ -138,7 +161,7 @@ def _arg(r, name, obj, n):
     if nm == "value":
         return r.choice([0, 1, True, False, 2, -1, "1", None])
     if nm == "fmt":
-        return r.choice(FMTS)
+        return _mangle(r, r.choice(FMTS + BRACKETS))
     if nm == "sep":
         return r.choice(SEPS)
     if nm == "sequence":
@@ -156,9 +179,9 @@ def _arg(r, name, obj, n):
     if nm == "stream":
         return io.StringIO()
     if nm == "s":
-        return r.choice(BITSY_STR)
+        return _mangle(r, r.choice(BITSY_STR + BRACKETS))
     if nm in ("dtype", "token"):
-        return r.choice(DTYPES)
+        return _mangle(r, r.choice(DTYPES))
     if nm in ("iterable", "initializer", "x"):
         return r.choice([[1, 2, 3], [], [300, -1], ["a"], (1.5, 2.5), b"\x01\x02", _array.array("H", [1, 2]), Bits("0xff"), 3, 0, -1, [float("nan")], range(4)])
     if nm == "key":
@@ -245,11 +268,23 @@ def _fuzz(target, seed, steps, lsb0):
     with options(lsb0=opts0[0], bytealigned=opts0[1], mxfp_overflow=opts0[2]):
         n0 = r.choice([0, 1, 7, 8, 13, 16, 24, 33])
         init = "".join(r.choice("01") for _ in range(n0))
+        forced = None
+        if target in ("ConstBitStream", "BitStream") and not opts0[0] and r.random() < 0.2:
+            # a stream that ends in an exp-Golomb code cut short by 1-3 bits, positioned at the start of that code; the first
+            # call reads it
+            v = r.choice([3, 4, 7, 8, 20, 100, 1000, 2 ** 20])
+            code = Bits(**{r.choice(["ue", "se", "uie", "sie"]): v}).bin
+            cut = code[:max(1, len(code) - r.choice([1, 1, 2, 3]))]
+            init = init + cut
+            forced = (len(init) - len(cut), r.choice(["read", "readlist", "peek", "peeklist"]), r.choice(["ue", "se", "uie", "sie"]))
+            n0 = len(init)
         try:
             if target in CLASSES:
                 obj = CLASSES[target](bin=init) if init else CLASSES[target]()
                 if hasattr(obj, "pos") and n0:
                     obj.pos = r.choice([n0, n0, 0, r.randint(0, n0)])
+                if forced:
+                    obj.pos = forced[0]
             elif target == "Array":
                 obj = bitstring.Array(r.choice(["u8", "i4", "float16", "hex2", "bool", ">H", "bytes1", "e4m3mxfp", "u13"]), None)
                 obj.data = BitArray(bin=init) if init else BitArray()
@@ -283,6 +318,10 @@ def _fuzz(target, seed, steps, lsb0):
                 kw = r.choice([{}, {"n": 8}, {"n": -1}, {"n": "x"}, {"a": 3}])
                 thunk = lambda fmt=fmt, vals=vals, kw=kw: bitstring.pack(fmt, *vals, **kw)
                 desc = f"pack({fmt!r}, *{vals!r}, **{kw!r})"
+            elif forced and step == 0:
+                fn, a0 = getattr(obj, forced[1]), forced[2]
+                thunk = lambda fn=fn, a0=a0: fn(a0)
+                desc = f".{forced[1]}({a0!r})"
             else:
                 k = r.random()
                 if k < 0.08 and isinstance(obj, Bits):
@@ -328,7 +367,7 @@ def _fuzz(target, seed, steps, lsb0):
                             if p.default is not inspect.Parameter.empty and r.random() < 0.45:
                                 break
                             if name == "pp" and p.name == "fmt":
-                                args.append(r.choice(PP_FMTS))
+                                args.append(_mangle(r, r.choice(PP_FMTS + BRACKETS[:6])))
                             else:
                                 args.append(_arg(r, p.name, obj, n))
                     def thunk(fn=fn, args=args, name=name):
